@@ -8,9 +8,6 @@ import CoseProofs.Lemmas.Parse
 open CoseModel CoseSpec
 namespace C02
 
-/-- context strings in the Go source are the RFC's -/
-theorem ctx_sign1 : Facts.ctxSign1 = ["Signature1"] := by decide
-theorem ctx_signature : Facts.ctxSignature = ["Signature"] := by decide
 theorem ctx_model_sign1 : ctxSignature1 = utf8 "Signature1" := rfl
 theorem ctx_model_signature : ctxSignature = utf8 "Signature" := rfl
 
